@@ -57,10 +57,14 @@ Get(cfg, st, k, t) ==
                   ELSE EvictPubs(st1, SetMin({last2[x] : x \in Targets(cfg)}))
        IN [st |-> st2, ids |-> Serve(st, t), err |-> ""]
 
+(* "dbuffer": a push-based adapter behind DelayFixed(2): its notification pull arrives two     *)
+(* ticks earlier (not before the first publication)                                          *)
 RECURSIVE NotifyBuffers(_, _, _, _)
 NotifyBuffers(cfg, st, k, t) ==
   IF k > Len(cfg.kinds) THEN st
-  ELSE NotifyBuffers(cfg, IF cfg.kinds[k] = "buffer" THEN Get(cfg, st, k, t).st ELSE st, k + 1, t)
+  ELSE NotifyBuffers(cfg, IF cfg.kinds[k] = "buffer" THEN Get(cfg, st, k, t).st
+                          ELSE IF cfg.kinds[k] = "dbuffer" THEN Get(cfg, st, k, Max2(t - 2, st.full[1].t)).st
+                          ELSE st, k + 1, t)
 
 (* Output.push_data with a fresh payload id at time t (strictly after the newest) *)
 PushOk(cfg, st, t, id) ==
